@@ -171,3 +171,32 @@ def run_driver_loops(prog, threads=2):
         for r in dom.regions[n0:]:
             out.append(("Vector<double> %s" % sp, r))
     return out
+
+
+ALLOWED_LITERALS = set(range(0, 9)) | {10000}
+ALLOWED_MODULI = {2, 3, 4}
+
+
+def predicate_census(functions):
+    """cut-off premise (DESIGN 3.4): in the interpreted operator code, integer literals in comparisons are small (boundary
+    distances 0..8; the 10 000 parallelisation threshold) and moduli are 2, 3 or 4. Returns (n_atoms, offending atoms)."""
+    n = 0
+    bad = []
+    for qn, fn in functions.items():
+        if qn.startswith(("std::", "__gnu")):
+            continue
+        for node in ir.walk(fn["body"]):
+            if node.get("k") != "Bin":
+                continue
+            op = node["op"]
+            if op in ("<", "<=", ">", ">=", "==", "!="):
+                for side in (node["a"], node["b"]):
+                    if side.get("k") == "Int":
+                        n += 1
+                        if int(side["v"]) not in ALLOWED_LITERALS:
+                            bad.append(("%s %s %s" % (ir.show(node["a"]), op, ir.show(node["b"])), qn, ir.locstr(node)))
+            if op == "%" and node["b"].get("k") == "Int":
+                n += 1
+                if int(node["b"]["v"]) not in ALLOWED_MODULI:
+                    bad.append(("%s %% %s" % (ir.show(node["a"]), node["b"]["v"]), qn, ir.locstr(node)))
+    return n, bad
